@@ -722,7 +722,9 @@ struct SlabEngine : Engine {
 			if (c.unmaps) violation("realloc_semantics", "realloc kept the block in place but unmapped a region");
 			size_t rep = api->get_size(pc, pool, q);
 			if (rep < n) violation("too_small", "realloc(%zu) kept the block in place but its reported size is %zu", n, rep);
-			if (rep != oldrep) violation("size_changed", "realloc in place changed the reported size of block #%d from %zu to %zu", h, oldrep, rep);
+			// (the block realloc returns is a new block as far as "the reported size does not change while the block lives" goes:
+			//  a pool that reports exact request sizes may legitimately report a different size after an in-place realloc)
+			if (rep != oldrep) { uint64_t c0 = cls_of(oldrep), c1 = cls_of(rep); if (c0) live_cls[c0]--; if (c1) { live_cls[c1]++; if (live_cls[c1] > peak_cls[c1]) peak_cls[c1] = live_cls[c1]; } b.reported = rep; }
 			if (pi.poison && memchr(pshadow + off(q), 1, n)) violation("not_unpoisoned", "after realloc(%zu) in place not all requested bytes are unpoisoned", n);
 			b.req = n;
 			size_t keep = std::min(oldreq, n);
